@@ -1,17 +1,7 @@
-use std::collections::VecDeque;
 use tevec::prelude::*;
 fn main() {
-    let e: VecDeque<f64> = VecDeque::new();
-    let r: Vec<f64> = e.ts_vmin(3, None);
-    println!("vmin on empty VecDeque: {:?}", r);
-    let r: Vec<f64> = e.ts_vrank(3, None, false, false);
-    println!("vrank on empty VecDeque: {:?}", r);
-    let r: Vec<f64> = e.ts_vsum(3, None);
-    println!("vsum on empty VecDeque: {:?}", r);
-    let v: Vec<f64> = vec![];
-    let r: Vec<f64> = v.ts_vrank(3, None, false, false);
-    println!("vrank on empty Vec: {:?}", r);
-    let d: VecDeque<f64> = vec![3., 1., 2.].into();
-    let r: Vec<f64> = d.ts_vmin(2, None);
-    println!("vmin on deque: {:?}", r);
+    for s in ["ab", "99999999999999999999d", "9223372036854775807w", "+-5d", "1d h", "3000000000mo", "9223372036854775807s", "1h30m", "-2y1mo", "", "12", "é1d", "1é"] {
+        let r = std::panic::catch_unwind(|| TimeDelta::parse(s));
+        match r { Ok(v) => println!("{:?} -> {:?}", s, v.map(|t| (t.months, t.inner.num_nanoseconds()))), Err(_) => println!("{:?} -> PANIC", s) }
+    }
 }
